@@ -28,7 +28,7 @@ use yv_harness::{coq, json_str};
 // path keys
 
 /// (key, path).  Keys 0 1 2 are the files behind the standard descriptors.
-const PATHS: [(u64, &str); 10] = [
+const PATHS: [(u64, &str); 14] = [
     (0, "/dev/stdin"),
     (1, "/dev/stdout"),
     (2, "/dev/stderr"),
@@ -39,10 +39,19 @@ const PATHS: [(u64, &str); 10] = [
     (7, "/d"),   // always a directory
     (8, "/d/x"), // regular or missing
     (9, "/s"),   // the script, when the shell is started as `yash /s`
+    (20, "/s0"), // scripts read with the . built-in
+    (21, "/s1"),
+    (22, "/s2"),
+    (23, "/s3"),
 ];
+const MISSING_SCRIPT: u64 = 24; // never exists
+const MISSING_SCRIPT_PATH: &str = "/nosuchscript";
 const BAD_PATH: &str = "/a/x"; // through a regular file: ENOTDIR
 
 fn path_of(key: u64) -> &'static str {
+    if key == MISSING_SCRIPT {
+        return MISSING_SCRIPT_PATH;
+    }
     PATHS.iter().find(|(k, _)| *k == key).unwrap().1
 }
 
@@ -53,6 +62,7 @@ fn path_of(key: u64) -> &'static str {
 enum FRef {
     Path(u64),
     Anon(Vec<u8>, u64),
+    Pipe,
     Unknown,
 }
 
@@ -75,6 +85,7 @@ enum Node {
 struct Obs {
     tag: String,
     main: bool,
+    pid: i32,
     tab: Vec<(i32, usize, bool)>,
     ofds: Vec<(usize, Ofd)>,
     fs: Vec<(u64, Option<Node>)>,
@@ -82,20 +93,21 @@ struct Obs {
 
 thread_local! {
     static STATE: RefCell<Option<State>> = const { RefCell::new(None) };
-    /// Every open file description seen so far; the index is its label.  The
-    /// clones keep the descriptions alive, so that an address is never reused
-    /// for another description within a case.
-    static SEEN: RefCell<Vec<Rc<RefCell<OpenFileDescription>>>> = const { RefCell::new(Vec::new()) };
+    /// Every open file description seen so far; the index is its label.  Weak
+    /// references: they do not keep a description open (a pipe would never
+    /// report end-of-file), but they keep its allocation, so that an address
+    /// is never reused for another description within a case.
+    static SEEN: RefCell<Vec<std::rc::Weak<RefCell<OpenFileDescription>>>> = const { RefCell::new(Vec::new()) };
     static OBS: RefCell<Vec<Obs>> = const { RefCell::new(Vec::new()) };
 }
 
 fn label(ofd: &Rc<RefCell<OpenFileDescription>>) -> usize {
     SEEN.with(|s| {
         let mut s = s.borrow_mut();
-        if let Some(i) = s.iter().position(|o| Rc::ptr_eq(o, ofd)) {
+        if let Some(i) = s.iter().position(|o| std::ptr::eq(o.as_ptr(), Rc::as_ptr(ofd))) {
             return i;
         }
-        s.push(Rc::clone(ofd));
+        s.push(Rc::downgrade(ofd));
         s.len() - 1
     })
 }
@@ -106,7 +118,7 @@ fn canon_content(c: &[u8]) -> Vec<u64> {
     if c.len() <= 12 { c.iter().map(|b| *b as u64).collect() } else { vec![999, c.len() as u64] }
 }
 
-fn snapshot<'a, I>(fds: I, fs: &FileSystem, tag: &str, main: bool) -> Obs
+fn snapshot<'a, I>(fds: I, fs: &FileSystem, tag: &str, main: bool, pid: i32) -> Obs
 where
     I: IntoIterator<Item = (&'a yash_env::io::Fd, &'a FdBody)>,
 {
@@ -131,6 +143,7 @@ where
                 let off = ofd.seek(SeekFrom::Current(0)).unwrap_or(usize::MAX) as u64;
                 match &ofd.inode().borrow().body {
                     FileBody::Regular { content, .. } => FRef::Anon(content.clone(), off),
+                    FileBody::Fifo { .. } => FRef::Pipe,
                     _ => FRef::Unknown,
                 }
             }
@@ -149,7 +162,7 @@ where
             (*k, node)
         })
         .collect();
-    Obs { tag: tag.to_string(), main, tab, ofds, fs: files }
+    Obs { tag: tag.to_string(), main, pid, tab, ofds, fs: files }
 }
 
 /// `fds TAG`: records the table of the calling process.
@@ -162,7 +175,7 @@ fn fds_main(env: &mut VEnv, args: Vec<Field>) -> BuiltinFuture<'_> {
             let st = st.borrow();
             let state = st.as_ref().unwrap().borrow();
             let proc = &state.processes[&pid];
-            snapshot(proc.fds().iter(), &state.file_system, &tag, main)
+            snapshot(proc.fds().iter(), &state.file_system, &tag, main, pid.0)
         });
         OBS.with(|o| o.borrow_mut().push(obs));
         ExitStatus::SUCCESS.into()
@@ -227,6 +240,16 @@ enum Kind {
     NotFound,
     Empty,
     Exec,
+    /// exec with an operand that cannot be invoked
+    ExecFail,
+}
+
+/// The file named by the operand of the . built-in.
+#[derive(Clone, Copy, Debug, PartialEq)]
+enum DotTarget {
+    Script(usize), // /s0 .. /s3, holding the body
+    Missing,
+    Bad, // a path through a regular file
 }
 
 #[derive(Clone, Debug, PartialEq)]
@@ -235,6 +258,13 @@ enum Item {
     /// compound command (Kind::Group) or function (Kind::Function) with
     /// redirections whose body is a list of items
     Group(Kind, usize, Vec<Redir>, Vec<Item>),
+    /// `. FILE` (false) or `command . FILE` (true) with redirections; the file
+    /// holds the body
+    Dot(bool, Vec<Redir>, DotTarget, Vec<Item>),
+    /// a command (Regular or Function) with a command substitution among its words
+    Subst(Kind, Vec<Redir>),
+    /// a pipeline of n commands
+    Pipe(usize),
     Limit(Option<u64>),
     Noclobber(bool),
 }
@@ -325,6 +355,8 @@ const SPECIAL_VARIANTS: usize = 2;
 struct Defs {
     text: String,
     count: usize,
+    /// (index, content) of the files /s0 .. read by the . built-in
+    scripts: Vec<(usize, String)>,
 }
 
 fn redirs_text(redirs: &[Redir]) -> (String, String) {
@@ -356,6 +388,26 @@ impl Item {
         match self {
             Item::Limit(l) => format!("lim {}\n", l.unwrap_or(0)),
             Item::Noclobber(b) => format!("set {}C\n", if *b { "-" } else { "+" }),
+            Item::Dot(via, redirs, target, body) => {
+                let (rs, bodies) = redirs_text(redirs);
+                let path = match target {
+                    DotTarget::Script(i) => {
+                        let content = format!("fds D\n{}", items_text(body, defs));
+                        defs.scripts.push((*i, content));
+                        path_of(20 + *i as u64)
+                    }
+                    DotTarget::Missing => MISSING_SCRIPT_PATH,
+                    DotTarget::Bad => BAD_PATH,
+                };
+                let head = if *via { "command . " } else { ". " };
+                format!("{head}{path} {rs}\n{bodies}")
+            }
+            Item::Subst(kind, redirs) => {
+                let (rs, bodies) = redirs_text(redirs);
+                let head = if *kind == Kind::Function { "f $(fds S)" } else { "fds I $(fds S)" };
+                format!("{head} {rs}\n{bodies}")
+            }
+            Item::Pipe(n) => format!("{}\n", vec!["fds P"; *n].join(" | ")),
             Item::Group(kind, variant, redirs, body) => {
                 let (rs, bodies) = redirs_text(redirs);
                 let inner = format!("fds B\n{}", items_text(body, defs));
@@ -375,6 +427,11 @@ impl Item {
             }
             Item::Cmd(kind, variant, redirs) => {
                 let (rs, bodies) = redirs_text(redirs);
+                // a regular built-in may also be run through eval, the
+                // redirections being part of the evaluated text
+                if *kind == Kind::Regular && variant % 4 == 3 && bodies.is_empty() && !rs.contains('\'') {
+                    return format!("eval 'fds I {rs}'\n");
+                }
                 let head = match kind {
                     Kind::Regular => "fds I".to_string(),
                     Kind::Special => match variant % SPECIAL_VARIANTS {
@@ -393,21 +450,41 @@ impl Item {
                     Kind::NotFound => "nosuchcommand".to_string(),
                     Kind::Empty => String::new(),
                     Kind::Exec => "exec".to_string(),
+                    Kind::ExecFail => match variant % 2 {
+                        0 => "exec /no/such/utility".to_string(),
+                        _ => "exec nosuchutility arg".to_string(),
+                    },
                 };
                 let line = if head.is_empty() { rs } else if rs.is_empty() { head } else { format!("{head} {rs}") };
                 format!("{line}\n{bodies}")
             }
         }
     }
-    fn coq(&self) -> String {
+    fn coq(&self, interactive: bool) -> String {
         match self {
             Item::Limit(None) => "(ILimit None)".into(),
             Item::Limit(Some(l)) => format!("(ILimit (Some {l}))"),
             Item::Noclobber(b) => format!("(INoclobber {})", coq::b(*b)),
+            Item::Dot(via, redirs, target, body) => {
+                let rs: Vec<String> = redirs.iter().map(|r| r.coq()).collect();
+                let b: Vec<String> = body.iter().map(|i| i.coq(interactive)).collect();
+                let p = match target {
+                    DotTarget::Script(i) => format!("(PKey {})", 20 + i),
+                    DotTarget::Missing => format!("(PKey {MISSING_SCRIPT})"),
+                    DotTarget::Bad => "PBad".to_string(),
+                };
+                format!("(IDot {} {} {p} {})", coq::b(*via), coq::list(&rs), coq::list(&b))
+            }
+            Item::Subst(kind, redirs) => {
+                let k = if *kind == Kind::Function { "KFunction" } else { "KRegular" };
+                let rs: Vec<String> = redirs.iter().map(|r| r.coq()).collect();
+                format!("(ISubst (mkCmd {k} {}))", coq::list(&rs))
+            }
+            Item::Pipe(n) => format!("(IPipe {n}%nat)"),
             Item::Group(kind, _, redirs, body) => {
                 let k = if *kind == Kind::Function { "KFunction" } else { "KGroup" };
                 let rs: Vec<String> = redirs.iter().map(|r| r.coq()).collect();
-                let b: Vec<String> = body.iter().map(|i| i.coq()).collect();
+                let b: Vec<String> = body.iter().map(|i| i.coq(interactive)).collect();
                 format!("(IGroup {k} {} {})", coq::list(&rs), coq::list(&b))
             }
             Item::Cmd(kind, _, redirs) => {
@@ -420,6 +497,7 @@ impl Item {
                     Kind::NotFound => "KNotFound",
                     Kind::Empty => "KEmpty",
                     Kind::Exec => "KExec",
+                    Kind::ExecFail => if interactive { "(KExecFail true)" } else { "(KExecFail false)" },
                 };
                 let rs: Vec<String> = redirs.iter().map(|r| r.coq()).collect();
                 format!("(ICmd (mkCmd {k} {}))", coq::list(&rs))
@@ -438,6 +516,7 @@ fn obs_coq(o: &Obs) -> String {
             let f = match &a.file {
                 FRef::Path(k) => format!("(FPath {k})"),
                 FRef::Anon(c, off) => format!("(FAnon {} {off})", nlist(c.iter().map(|b| *b as u64))),
+                FRef::Pipe => "FPipe".into(),
                 // never produced by the shell: shown as a path key no file has
                 FRef::Unknown => "(FPath 99)".into(),
             };
@@ -476,10 +555,13 @@ struct InitFiles {
 
 impl InitFiles {
     /// `script`: the script text if the shell reads it from the file /s
-    fn coq(&self, script: Option<&str>) -> String {
+    fn coq(&self, script: Option<&str>, dots: &[(usize, String)]) -> String {
         let mut v: Vec<String> = vec![];
         if let Some(sc) = script {
             v.push(format!("(9, Reg {} false)", nlist(canon_content(sc.as_bytes()))));
+        }
+        for (i, c) in dots {
+            v.push(format!("({}, Reg {} false)", 20 + i, nlist(canon_content(c.as_bytes()))));
         }
         for (k, c) in &self.files {
             if let Some(c) = c {
@@ -500,9 +582,15 @@ enum StepOf {
     Pop,
     Limit(Option<u64>),
     Noclobber,
+    /// child of a command substitution / of a pipeline
+    Child,
+    /// a pipeline that started no child
+    PipeFailed,
+    Startup,
 }
 
 struct Outcome {
+    gave_up: bool,
     init: Obs,
     /// per step: what it belongs to, inside, after, exited
     steps: Vec<(StepOf, Option<Obs>, Obs, bool)>,
@@ -514,6 +602,8 @@ struct Parser {
     fin: Option<Obs>,
     steps: Vec<(StepOf, Option<Obs>, Obs, bool)>,
     problem: Option<String>,
+    /// a child of a pipeline did not reach its command (outside the domain)
+    gave_up: bool,
 }
 
 impl Parser {
@@ -561,6 +651,99 @@ impl Parser {
                         return true;
                     }
                 },
+                Item::Subst(kind, redirs) => {
+                    let child = self.next_if_tag("S");
+                    let inside = self.next_if_tag("I");
+                    match self.next_if_tag("T") {
+                        Some(o) => {
+                            self.steps.push((StepOf::Child, child, o.clone(), false));
+                            self.steps.push((StepOf::Cmd(*kind, redirs.clone()), inside, o, false));
+                        }
+                        None if self.it.peek().is_some() => {
+                            self.problem = Some("unexpected observation".into());
+                            return true;
+                        }
+                        None => {
+                            match self.fin.clone() {
+                                Some(f) => {
+                                    if child.is_some() || inside.is_some() {
+                                        self.problem = Some("shell exit after a command substitution".into());
+                                    }
+                                    self.steps.push((StepOf::Child, None, f, true))
+                                }
+                                None => self.problem = Some("no final state".into()),
+                            }
+                            return true;
+                        }
+                    }
+                }
+                Item::Pipe(n) => {
+                    let mut children = vec![];
+                    while let Some(o) = self.next_if_tag("P") {
+                        children.push(o);
+                    }
+                    children.sort_by_key(|o| o.pid);
+                    match self.next_if_tag("T") {
+                        Some(o) => {
+                            if children.len() != *n {
+                                self.gave_up = true;
+                                return true;
+                            }
+                            for c in children {
+                                self.steps.push((StepOf::Child, Some(c), o.clone(), false));
+                            }
+                        }
+                        None if self.it.peek().is_some() => {
+                            self.problem = Some("unexpected observation".into());
+                            return true;
+                        }
+                        None => {
+                            match self.fin.clone() {
+                                Some(f) => {
+                                    if children.is_empty() {
+                                        self.steps.push((StepOf::PipeFailed, None, f, true));
+                                    } else {
+                                        for c in children {
+                                            self.steps.push((StepOf::Child, Some(c), f.clone(), true));
+                                        }
+                                    }
+                                }
+                                None => self.problem = Some("no final state".into()),
+                            }
+                            return true;
+                        }
+                    }
+                }
+                Item::Dot(via, redirs, _, body) => {
+                    if let Some(b) = self.next_if_tag("D") {
+                        self.steps.push((StepOf::Push(Kind::Group, redirs.clone()), Some(b.clone()), b, false));
+                        if self.items(body) {
+                            return true;
+                        }
+                        match self.next_if_tag("T") {
+                            Some(o) => self.steps.push((StepOf::Pop, None, o, false)),
+                            None => {
+                                self.problem = Some("missing observation after the . built-in".into());
+                                return true;
+                            }
+                        }
+                    } else {
+                        match self.next_if_tag("T") {
+                            Some(o) => self.steps.push((StepOf::Push(Kind::Group, redirs.clone()), None, o, false)),
+                            None if self.it.peek().is_some() || *via => {
+                                self.problem = Some("unexpected end after the . built-in".into());
+                                return true;
+                            }
+                            None => {
+                                match self.fin.clone() {
+                                    Some(f) => self.steps.push((StepOf::Push(Kind::Group, redirs.clone()), None, f, true)),
+                                    None => self.problem = Some("no final state".into()),
+                                }
+                                return true;
+                            }
+                        }
+                    }
+                }
                 Item::Group(kind, _, redirs, body) => {
                     if let Some(b) = self.next_if_tag("B") {
                         self.steps.push((StepOf::Push(*kind, redirs.clone()), Some(b.clone()), b, false));
@@ -593,44 +776,88 @@ impl Parser {
 
 const PREAMBLE: &str = "f() { fds I; }\n";
 
-fn script_of(items: &[Item]) -> String {
-    let mut defs = Defs::default();
-    let body = items_text(items, &mut defs);
-    format!("{PREAMBLE}{}fds T\n{body}", defs.text)
+/// How the shell is started.
+#[derive(Clone, Copy, Debug, Default, PartialEq)]
+struct Ctx {
+    /// `yash /s` instead of `yash -c SCRIPT`
+    script_file: bool,
+    /// descriptor limit in force before the shell opens its script
+    startup_limit: Option<u64>,
+    /// `yash -i -c SCRIPT`
+    interactive: bool,
 }
 
-fn run_case(init: &InitFiles, items: &[Item], script_file: bool) -> Outcome {
+/// (the script, the files read by the . built-in)
+fn build(items: &[Item]) -> (String, Vec<(usize, String)>) {
+    let mut defs = Defs::default();
+    let body = items_text(items, &mut defs);
+    (format!("{PREAMBLE}{}fds T\n{body}", defs.text), defs.scripts)
+}
+
+fn script_of(items: &[Item]) -> String {
+    let (mut script, dots) = build(items);
+    for (i, c) in dots {
+        script.push_str(&format!("--- /s{i} ---\n{c}"));
+    }
+    script
+}
+
+thread_local! {
+    /// the table before the shell opens its script (`yash /s`)
+    static PRE: RefCell<Option<Obs>> = const { RefCell::new(None) };
+}
+
+fn empty_obs() -> Obs {
+    Obs { tag: "F".into(), main: true, pid: 0, tab: vec![], ofds: vec![], fs: vec![] }
+}
+
+fn run_case(init: &InitFiles, items: &[Item], ctx: &Ctx) -> Outcome {
     SEEN.with(|s| s.borrow_mut().clear());
     OBS.with(|o| o.borrow_mut().clear());
-    let script = script_of(items);
+    PRE.with(|p| *p.borrow_mut() = None);
+    let (script, dots) = build(items);
     let mut files: Vec<(String, Vec<u8>)> = vec![];
     for (k, c) in &init.files {
         if let Some(c) = c {
             files.push((path_of(*k).to_string(), c.clone()));
         }
     }
+    for (i, c) in &dots {
+        files.push((path_of(20 + *i as u64).to_string(), c.clone().into_bytes()));
+    }
     // the directory /d always exists; /d/x only if listed
     let have_dx = init.files.iter().any(|(k, c)| *k == 8 && c.is_some());
     if !have_dx {
         files.push(("/d/.keep".to_string(), vec![]));
     }
-    let argv = if script_file {
+    let argv = if ctx.script_file {
         files.push(("/s".to_string(), script.clone().into_bytes()));
         vec!["/s".to_string()]
+    } else if ctx.interactive {
+        vec!["-i".to_string(), "-c".to_string(), script]
     } else {
         vec!["-c".to_string(), script]
     };
+    let startup_limit = ctx.startup_limit;
     let (o, state) = vsh::run_shell(
         vsh::RunOpts { argv, files, ..Default::default() },
-        |env, state| {
+        move |env, state| {
             STATE.with(|s| *s.borrow_mut() = Some(Rc::clone(state)));
             env.builtins.insert("fds", Builtin::new(Type::Mandatory, fds_main));
             env.builtins.insert("sfds", Builtin::new(Type::Special, fds_main));
             env.builtins.insert("lim", Builtin::new(Type::Mandatory, lim_main));
+            if let Some(l) = startup_limit {
+                let _ = env.system.setrlimit(Resource::NOFILE, LimitPair { soft: l as _, hard: INFINITY });
+            }
+            let pid = env.system.getpid();
+            let st = state.borrow();
+            let pre = snapshot(st.processes[&pid].fds().iter(), &st.file_system, "T", true, pid.0);
+            PRE.with(|p| *p.borrow_mut() = Some(pre));
         },
     );
     STATE.with(|s| *s.borrow_mut() = None);
     let obs = OBS.with(|o| std::mem::take(&mut *o.borrow_mut()));
+    let pre = PRE.with(|p| p.borrow_mut().take());
     let mut problem = None;
     if let Some(p) = &o.panicked {
         problem = Some(format!("panic: {p}"));
@@ -640,24 +867,55 @@ fn run_case(init: &InitFiles, items: &[Item], script_file: bool) -> Outcome {
     // final state of the main process (pid 2)
     let fin = state.as_ref().map(|st| {
         let st = st.borrow();
-        let proc = st.processes.iter().next().unwrap().1;
-        snapshot(proc.fds().iter(), &st.file_system, "F", true)
+        let (pid, proc) = st.processes.iter().next().unwrap();
+        snapshot(proc.fds().iter(), &st.file_system, "F", true, pid.0)
     });
     let mut it = obs.into_iter().peekable();
-    let init_obs = match it.next() {
-        Some(o) if o.tag == "T" && o.main => o,
-        _ => {
+    let mut steps = vec![];
+    let init_obs;
+    if ctx.script_file {
+        // the table before the script is opened, then the start-up itself
+        let Some(pre) = pre else {
             return Outcome {
-                init: fin.clone().unwrap_or(Obs { tag: "F".into(), main: true, tab: vec![], ofds: vec![], fs: vec![] }),
+                gave_up: false,
+                init: empty_obs(),
                 steps: vec![],
-                problem: Some("no initial observation".into()),
+                problem: Some("no observation before start-up".into()),
             };
+        };
+        init_obs = pre.clone();
+        if let Some(l) = ctx.startup_limit {
+            steps.push((StepOf::Limit(Some(l)), None, pre, false));
         }
-    };
-    let mut parser = Parser { it, fin, steps: vec![], problem };
+        match it.next() {
+            Some(o) if o.tag == "T" && o.main => steps.push((StepOf::Startup, None, o, false)),
+            Some(_) => problem = Some("unexpected first observation".into()),
+            None => {
+                // the shell could not open its script
+                match fin.clone() {
+                    Some(f) => steps.push((StepOf::Startup, None, f, true)),
+                    None => problem = Some("no final state".into()),
+                }
+                return Outcome { gave_up: false, init: init_obs, steps, problem };
+            }
+        }
+    } else {
+        init_obs = match it.next() {
+            Some(o) if o.tag == "T" && o.main => o,
+            _ => {
+                return Outcome {
+                    gave_up: false,
+                    init: fin.clone().unwrap_or(empty_obs()),
+                    steps: vec![],
+                    problem: Some("no initial observation".into()),
+                };
+            }
+        };
+    }
+    let mut parser = Parser { it, fin, steps, problem, gave_up: false };
     parser.items(items);
-    let Parser { steps, problem, .. } = parser;
-    Outcome { init: init_obs, steps, problem }
+    let Parser { steps, problem, gave_up, .. } = parser;
+    Outcome { gave_up, init: init_obs, steps, problem }
 }
 
 // ---------------------------------------------------------------------------
@@ -722,19 +980,48 @@ fn random_kind(r: &mut Rng) -> Kind {
         43..=58 => Kind::Group,
         59..=67 => Kind::Subshell,
         68..=76 => Kind::NotFound,
-        77..=87 => Kind::Empty,
+        77..=86 => Kind::Empty,
+        87..=90 => Kind::ExecFail,
         _ => Kind::Exec,
     }
 }
 
 fn random_items(r: &mut Rng, len: usize, wide: bool) -> Vec<Item> {
-    random_items_at(r, len, wide, 0)
+    let mut dots = 0;
+    random_items_at(r, len, wide, 0, &mut dots)
 }
 
-fn random_items_at(r: &mut Rng, len: usize, wide: bool, depth: usize) -> Vec<Item> {
+/// `dots`: how many of the script files /s0 .. /s3 are taken
+fn random_items_at(r: &mut Rng, len: usize, wide: bool, depth: usize, dots: &mut usize) -> Vec<Item> {
     let mut items = vec![];
     for _ in 0..len {
-        match r.below(100) {
+        match r.below(112) {
+            100..=105 => {
+                // the . built-in: the shell opens a descriptor of its own
+                let via = r.chance(2, 3);
+                let redirs = if r.chance(1, 2) { random_redirs(r, 2, wide) } else { vec![] };
+                let target = match r.below(8) {
+                    0 => DotTarget::Missing,
+                    1 => DotTarget::Bad,
+                    _ if *dots < 4 && depth < 2 => {
+                        *dots += 1;
+                        DotTarget::Script(*dots - 1)
+                    }
+                    _ => DotTarget::Missing,
+                };
+                let body = if let DotTarget::Script(_) = target {
+                    let n = r.below(3);
+                    random_items_at(r, n, wide, depth + 1, dots)
+                } else {
+                    vec![]
+                };
+                items.push(Item::Dot(via, redirs, target, body));
+            }
+            106..=108 => {
+                let kind = if r.chance(1, 3) { Kind::Function } else { Kind::Regular };
+                items.push(Item::Subst(kind, random_redirs(r, 2, wide)));
+            }
+            109..=111 => items.push(Item::Pipe(2 + r.below(3))),
             0..=5 => items.push(Item::Noclobber(r.chance(2, 3))),
             6..=11 if depth == 0 => {
                 let l = if r.chance(1, 4) { None } else { Some(r.range(10, 16) as u64) };
@@ -745,13 +1032,13 @@ fn random_items_at(r: &mut Rng, len: usize, wide: bool, depth: usize) -> Vec<Ite
                 let kind = if r.chance(1, 3) { Kind::Function } else { Kind::Group };
                 let redirs = random_redirs(r, 3, wide);
                 let n = 1 + r.below(3);
-                let body = random_items_at(r, n, wide, depth + 1);
+                let body = random_items_at(r, n, wide, depth + 1, dots);
                 items.push(Item::Group(kind, r.below(60), redirs, body));
             }
             _ => {
                 let mut kind = random_kind(r);
                 // inside a body, exec (whose effect would outlive the body) is rare
-                if depth > 0 && kind == Kind::Exec && r.chance(3, 4) {
+                if depth > 0 && matches!(kind, Kind::Exec | Kind::ExecFail) && r.chance(3, 4) {
                     kind = Kind::Regular;
                 }
                 let mut redirs = random_redirs(r, 4, wide);
@@ -763,6 +1050,18 @@ fn random_items_at(r: &mut Rng, len: usize, wide: bool, depth: usize) -> Vec<Ite
         }
     }
     items
+}
+
+/// Number of script files used by the items (nested ones included).
+fn count_dots(items: &[Item]) -> usize {
+    items
+        .iter()
+        .map(|i| match i {
+            Item::Dot(_, _, t, body) => usize::from(matches!(t, DotTarget::Script(_))) + count_dots(body),
+            Item::Group(_, _, _, body) => count_dots(body),
+            _ => 0,
+        })
+        .sum()
 }
 
 fn random_init(r: &mut Rng) -> InitFiles {
@@ -787,10 +1086,16 @@ struct Emitter {
 impl Emitter {
     /// Runs and writes one case; returns false if the case was outside the
     /// domain (a limit below an open descriptor) and was dropped.
-    fn emit(&mut self, stream: &str, init: &InitFiles, items: &[Item], script_file: bool, tags: &[&str]) -> bool {
-        let out = run_case(init, items, script_file);
-        let script_text = script_of(items);
+    fn emit(&mut self, stream: &str, init: &InitFiles, items: &[Item], ctx: &Ctx, tags: &[&str]) -> bool {
+        let out = run_case(init, items, ctx);
+        let script_file = ctx.script_file;
+        let (script_text, dots) = build(items);
         let script_opt = if script_file { Some(script_text.as_str()) } else { None };
+        if out.gave_up {
+            self.discarded += 1;
+            self.w.count("discarded:pipeline-child-gave-up");
+            return false;
+        }
         // domain: the limit is never lowered to or below an open descriptor
         let mut lim: Option<u64> = None;
         let mut before = &out.init;
@@ -804,6 +1109,13 @@ impl Emitter {
                     self.w.count("discarded:limit-below-open-descriptor");
                     return false;
                 }
+            }
+            // a pipeline started with descriptor 1 closed: a child may give up
+            // before it reaches its command, which cannot be observed
+            if matches!(of, StepOf::Child | StepOf::PipeFailed) && !before.tab.iter().any(|(fd, _, _)| *fd == 1) {
+                self.discarded += 1;
+                self.w.count("discarded:pipe-with-stdout-closed");
+                return false;
             }
             before = after;
         }
@@ -819,19 +1131,26 @@ impl Emitter {
                 )
             })
             .collect();
-        let items_coq: Vec<String> = items.iter().map(|i| i.coq()).collect();
+        let mut items_coq: Vec<String> = vec![];
+        if script_file {
+            if let Some(l) = ctx.startup_limit {
+                items_coq.push(format!("(ILimit (Some {l}))"));
+            }
+            items_coq.push("(IStartup (PKey 9))".to_string());
+        }
+        items_coq.extend(items.iter().map(|i| i.coq(ctx.interactive)));
         let term = if let Some(p) = &out.problem {
             // a panic, a hang or a malformed trace: an empty table can never be
             // a restored one, so the oracle rejects the case
             let _ = p;
             format!(
                 "({}, {}, {}, [mkStep None (mkObs [] [] []) true])%N",
-                init.coq(script_opt),
+                init.coq(script_opt, &dots),
                 coq::list(&items_coq[..1.min(items_coq.len())]),
                 obs_coq(&out.init)
             )
         } else {
-            format!("({}, {}, {}, {})%N", init.coq(script_opt), coq::list(&items_coq), obs_coq(&out.init), coq::list(&steps))
+            format!("({}, {}, {}, {})%N", init.coq(script_opt, &dots), coq::list(&items_coq), obs_coq(&out.init), coq::list(&steps))
         };
         let shown: Vec<String> = out
             .steps
@@ -848,7 +1167,11 @@ impl Emitter {
         let json = format!(
             "{{\"stream\":{},\"started_as\":{},\"script\":{},\"problem\":{},\"initial\":{},\"observed\":{}}}",
             json_str(stream),
-            json_str(if script_file { "yash /s" } else { "yash -c" }),
+            json_str(&format!(
+                "{}{}",
+                if script_file { "yash /s" } else if ctx.interactive { "yash -i -c" } else { "yash -c" },
+                ctx.startup_limit.map(|l| format!(" (descriptor limit {l} from the start)")).unwrap_or_default()
+            )),
             json_str(&script_of(items)),
             json_str(out.problem.as_deref().unwrap_or("")),
             json_str(&obs_show(&out.init)),
@@ -856,7 +1179,13 @@ impl Emitter {
         );
         // histogram
         self.w.count(&format!("stream:{stream}"));
-        self.w.count(if script_file { "context:script-file(internal fd 10)" } else { "context:command-string" });
+        self.w.count(if script_file {
+            "context:script-file(internal fd 10)"
+        } else if ctx.interactive {
+            "context:interactive-command-string"
+        } else {
+            "context:command-string"
+        });
         let mut failed = 0;
         let mut ran = 0;
         let mut max_saved = 0;
@@ -896,6 +1225,13 @@ impl Emitter {
                     }
                 }
                 StepOf::Pop => (),
+                StepOf::Child => self.w.count("child-of-pipe-observed"),
+                StepOf::PipeFailed => self.w.count("pipeline-without-any-pipe"),
+                StepOf::Startup => {
+                    if *ex {
+                        self.w.count("startup:script-not-opened");
+                    }
+                }
                 StepOf::Limit(Some(_)) => self.w.count("limit:finite"),
                 StepOf::Limit(None) => self.w.count("limit:infinite"),
                 StepOf::Noclobber => self.w.count("noclobber-switch"),
@@ -911,6 +1247,10 @@ impl Emitter {
         true
     }
 }
+
+const CMD: Ctx = Ctx { script_file: false, startup_limit: None, interactive: false };
+const FILE: Ctx = Ctx { script_file: true, startup_limit: None, interactive: false };
+const INTERACTIVE: Ctx = Ctx { script_file: false, startup_limit: None, interactive: true };
 
 fn rd(fd: u64, body: Body) -> Redir {
     Redir { fd, body, explicit: true }
@@ -994,6 +1334,9 @@ fn corpus() -> Vec<(InitFiles, Vec<Item>)> {
                 cmd(Kind::Regular, vec![rd(3, Dup(true, Darg::Fd(10))), rd(0, File(Fop::In, Some(3)))]),
             ],
         ),
+        // a pipeline whose second pipe cannot be made (the read end of the first
+        // pipe used to stay open)
+        (std_init(), vec![Item::Limit(Some(5)), Item::Pipe(3), Item::Pipe(3)]),
         // all user descriptors taken, then a limit that leaves one internal slot
         (
             std_init(),
@@ -1013,12 +1356,16 @@ fn corpus() -> Vec<(InitFiles, Vec<Item>)> {
 
 /// `--opt explore=SCRIPT`: runs a raw script with the probe built-ins and prints
 /// what they recorded (for replaying a finding by hand).
-fn explore(script: &str) {
+fn explore(script: &str, interactive: bool) {
     SEEN.with(|s| s.borrow_mut().clear());
     OBS.with(|o| o.borrow_mut().clear());
     let (o, state) = vsh::run_shell(
         vsh::RunOpts {
-            argv: vec!["-c".into(), script.to_string()],
+            argv: if interactive {
+                vec!["-i".into(), "-c".into(), script.to_string()]
+            } else {
+                vec!["-c".into(), script.to_string()]
+            },
             files: vec![("/a".into(), b"AAA".to_vec()), ("/b".into(), b"BB".to_vec()), ("/d/x".into(), b"X".to_vec())],
             ..Default::default()
         },
@@ -1036,7 +1383,7 @@ fn explore(script: &str) {
     if let Some(st) = state {
         let st = st.borrow();
         let proc = st.processes.iter().next().unwrap().1;
-        println!("final: {}", obs_show(&snapshot(proc.fds().iter(), &st.file_system, "F", true)));
+        println!("final: {}", obs_show(&snapshot(proc.fds().iter(), &st.file_system, "F", true, 0)));
     }
     println!("status={} panicked={:?} deadlock={} timeout={}", o.status, o.panicked, o.deadlock, o.timeout);
     println!("stderr:\n{}", o.stderr);
@@ -1045,7 +1392,11 @@ fn explore(script: &str) {
 fn main() {
     let args = Args::parse();
     if let Some(script) = args.opt("explore") {
-        explore(script);
+        explore(script, false);
+        return;
+    }
+    if let Some(script) = args.opt("explore_i") {
+        explore(script, true);
         return;
     }
     let mut rng = Rng::new(args.seed);
@@ -1054,8 +1405,8 @@ fn main() {
 
     // 1. corpus
     for (init, items) in corpus() {
-        e.emit("corpus", &init, &items, false, &[]);
-        e.emit("corpus", &init, &items, true, &[]);
+        e.emit("corpus", &init, &items, &CMD, &[]);
+        e.emit("corpus", &init, &items, &FILE, &[]);
     }
     // 2. the corpus and a set of random scripts under every descriptor limit
     //    from 3 up to beyond the high-water mark
@@ -1074,7 +1425,7 @@ fn main() {
         let n = items.len();
         for (j, i) in items.iter_mut().enumerate() {
             if let Item::Cmd(k, _, _) = i {
-                if j + 1 < n && matches!(k, Kind::Special | Kind::Exec) {
+                if j + 1 < n && matches!(k, Kind::Special | Kind::Exec | Kind::ExecFail) {
                     *k = Kind::Regular;
                 }
             }
@@ -1085,13 +1436,13 @@ fn main() {
         for l in 3..=15u64 {
             let mut it = vec![Item::Limit(Some(l))];
             it.extend(items.iter().filter(|i| !matches!(i, Item::Limit(_))).cloned());
-            e.emit("limit-sweep", init, &it, false, &[]);
+            e.emit("limit-sweep", init, &it, &CMD, &[]);
         }
         // the shell reads the script from descriptor 10: limits above that
         for l in 11..=16u64 {
             let mut it = vec![Item::Limit(Some(l))];
             it.extend(items.iter().filter(|i| !matches!(i, Item::Limit(_))).cloned());
-            e.emit("limit-sweep", init, &it, true, &[]);
+            e.emit("limit-sweep", init, &it, &FILE, &[]);
         }
     }
     // 2b. bounded-exhaustive: every single redirection (operator x operand
@@ -1147,11 +1498,11 @@ fn main() {
                         ] {
                             a.push(Item::Cmd(k, v, vec![r.clone()]));
                         }
-                        e.emit("exhaustive-single", &std_init(), &a, false, &[]);
+                        e.emit("exhaustive-single", &std_init(), &a, &CMD, &[]);
                         let mut x = pre.clone();
                         x.push(Item::Cmd(Kind::Exec, 0, vec![r.clone()]));
                         x.push(Item::Cmd(Kind::Regular, 0, vec![]));
-                        e.emit("exhaustive-single", &std_init(), &x, lim.is_none() && idx % 2 == 0, &[]);
+                        e.emit("exhaustive-single", &std_init(), &x, if lim.is_none() && idx % 2 == 0 { &FILE } else { &CMD }, &[]);
                     }
                 }
             }
@@ -1190,11 +1541,139 @@ fn main() {
                                 it.push(Item::Limit(Some(l)));
                             }
                             it.append(&mut batch);
-                            e.emit("exhaustive-pairs", &std_init(), &it, false, &[]);
+                            e.emit("exhaustive-pairs", &std_init(), &it, &CMD, &[]);
                         }
                     }
                 }
             }
+        }
+    }
+    // 2c. descriptors the shell opens for its own use (the script read by `.`
+    //     or at start-up, pipes of command substitutions and pipelines,
+    //     here-documents) and exec with an operand, under every descriptor
+    //     limit; every command is repeated so that a leak would accumulate
+    {
+        use Body::*;
+        let std_init = || InitFiles {
+            files: vec![(3, Some(b"AAA".to_vec())), (4, Some(b"BB".to_vec())), (5, None), (6, None), (8, None)],
+        };
+        let reg = |rs: Vec<Redir>| Item::Cmd(Kind::Regular, 0, rs);
+        let dot = |via: bool, rs: Vec<Redir>, t: DotTarget, body: Vec<Item>| Item::Dot(via, rs, t, body);
+        let mut templates: Vec<(&str, Vec<Item>)> = vec![
+            (
+                "dot",
+                vec![
+                    dot(true, vec![], DotTarget::Script(0), vec![reg(vec![])]),
+                    dot(true, vec![], DotTarget::Script(0), vec![reg(vec![])]),
+                    dot(true, vec![], DotTarget::Script(0), vec![reg(vec![])]),
+                    dot(true, vec![], DotTarget::Missing, vec![]),
+                    dot(false, vec![], DotTarget::Script(0), vec![reg(vec![])]),
+                    dot(false, vec![], DotTarget::Script(0), vec![reg(vec![])]),
+                ],
+            ),
+            (
+                "dot-with-redirections",
+                vec![
+                    dot(true, vec![rd(0, File(Fop::In, Some(3)))], DotTarget::Script(0), vec![reg(vec![rd(1, File(Fop::Out, Some(4)))])]),
+                    dot(true, vec![rd(0, File(Fop::In, Some(3)))], DotTarget::Script(0), vec![reg(vec![rd(1, File(Fop::Out, Some(4)))])]),
+                    dot(true, vec![rd(0, File(Fop::In, Some(3))), rd(1, File(Fop::Append, Some(4)))], DotTarget::Script(1),
+                        vec![dot(true, vec![], DotTarget::Script(2), vec![reg(vec![rd(3, Here("h\n".into()))])])]),
+                    dot(true, vec![rd(0, File(Fop::In, Some(3))), rd(1, File(Fop::Append, Some(4)))], DotTarget::Script(1),
+                        vec![dot(true, vec![], DotTarget::Script(2), vec![reg(vec![rd(3, Here("h\n".into()))])])]),
+                    dot(false, vec![rd(3, File(Fop::In, Some(3)))], DotTarget::Script(0), vec![reg(vec![rd(1, File(Fop::Out, Some(4)))])]),
+                ],
+            ),
+            (
+                "command-substitution",
+                vec![
+                    Item::Subst(Kind::Regular, vec![]),
+                    Item::Subst(Kind::Regular, vec![rd(3, File(Fop::In, Some(3)))]),
+                    Item::Subst(Kind::Function, vec![rd(0, Here("h\n".into()))]),
+                    Item::Subst(Kind::Regular, vec![]),
+                ],
+            ),
+            ("pipeline-2", vec![Item::Pipe(2), Item::Pipe(2), Item::Pipe(2)]),
+            ("pipeline-3", vec![Item::Pipe(2), Item::Pipe(3), Item::Pipe(3)]),
+            ("pipeline-4", vec![Item::Pipe(4), Item::Pipe(4)]),
+            (
+                "here-documents-and-eval",
+                vec![
+                    reg(vec![rd(0, Here("h\n".into()))]),
+                    reg(vec![rd(0, Here("h\n".into())), rd(3, Here("".into()))]),
+                    Item::Cmd(Kind::Regular, 3, vec![rd(3, File(Fop::In, Some(3))), rd(1, Dup(false, Darg::Fd(2)))]),
+                    Item::Cmd(Kind::Special, 1, vec![rd(3, File(Fop::In, Some(3)))]),
+                    Item::Group(Kind::Function, 0, vec![rd(0, Here("h\n".into()))], vec![Item::Subst(Kind::Regular, vec![]), Item::Pipe(2)]),
+                ],
+            ),
+            (
+                "exec-with-operand",
+                vec![
+                    reg(vec![]),
+                    Item::Cmd(Kind::ExecFail, 0, vec![rd(3, File(Fop::Out, Some(4)))]),
+                    reg(vec![]),
+                    Item::Cmd(Kind::ExecFail, 1, vec![rd(0, File(Fop::In, Some(3))), rd(3, Dup(true, Darg::Close))]),
+                    reg(vec![rd(4, Dup(true, Darg::Fd(0)))]),
+                    Item::Cmd(Kind::ExecFail, 0, vec![rd(5, File(Fop::In, Some(5)))]),
+                    reg(vec![]),
+                ],
+            ),
+        ];
+        // random scripts rich in these constructs
+        let nrand = args.scale(6, 60);
+        let mut rand_templates = vec![];
+        for k in 0..nrand {
+            let mut r = rng.fork(700_000 + k as u64);
+            let mut items = vec![];
+            let mut dots = 0usize;
+            let n = 3 + r.below(4);
+            for _ in 0..n {
+                let it = match r.below(10) {
+                    0..=3 => {
+                        let via = r.chance(3, 4);
+                        let redirs = if r.chance(1, 2) { random_redirs(&mut r, 2, false) } else { vec![] };
+                        if dots < 4 && r.chance(5, 6) {
+                            dots += 1;
+                            let nb = r.below(3);
+                            let body = random_items_at(&mut r, nb, false, 1, &mut dots);
+                            Item::Dot(via, redirs, DotTarget::Script(dots - 1 - count_dots(&body)), body)
+                        } else {
+                            Item::Dot(via, redirs, DotTarget::Missing, vec![])
+                        }
+                    }
+                    4..=5 => Item::Subst(Kind::Regular, random_redirs(&mut r, 2, false)),
+                    6..=7 => Item::Pipe(2 + r.below(3)),
+                    8 => Item::Cmd(Kind::ExecFail, r.below(4), random_redirs(&mut r, 2, false)),
+                    _ => Item::Cmd(Kind::Regular, r.below(60), random_redirs(&mut r, 3, false)),
+                };
+                items.push(it);
+            }
+            rand_templates.push(items);
+        }
+        for items in rand_templates {
+            templates.push(("random", items));
+        }
+        for (ti, (name, items)) in templates.iter().enumerate() {
+            for l in 3..=16u64 {
+                let stream = format!("own-descriptors:{name}");
+                // limit set by the script
+                let mut it = vec![Item::Limit(Some(l))];
+                it.extend(items.iter().cloned());
+                let quick_slice = args.thorough() || (l as usize + ti) % 2 == 0 || *name == "dot";
+                if quick_slice {
+                    e.emit(&stream, &std_init(), &it, &CMD, &[]);
+                }
+                if *name == "exec-with-operand" || (args.thorough() && l % 3 == 0) {
+                    e.emit(&stream, &std_init(), &it, &INTERACTIVE, &[]);
+                }
+                // limit in force from the start: the shell opens its own script
+                if args.thorough() || (l as usize + ti) % 2 == 1 {
+                    let ctx = Ctx { script_file: true, startup_limit: Some(l), interactive: false };
+                    e.emit(&stream, &std_init(), items, &ctx, &[]);
+                }
+            }
+            // no limit at all
+            e.emit(&format!("own-descriptors:{name}"), &std_init(), items, &CMD, &[]);
+            e.emit(&format!("own-descriptors:{name}"), &std_init(), items, &INTERACTIVE, &[]);
         }
     }
     // 3. random scripts
@@ -1204,8 +1683,13 @@ fn main() {
         let init = random_init(&mut r);
         let len = 2 + r.below(if args.thorough() { 9 } else { 6 });
         let items = random_items(&mut r, len, true);
-        let sf = r.chance(1, 2);
-        e.emit("random", &init, &items, sf, &[]);
+        let ctx = match r.below(8) {
+            0..=3 => CMD,
+            4..=5 => FILE,
+            6 => Ctx { script_file: true, startup_limit: Some(r.range(11, 16) as u64), interactive: false },
+            _ => INTERACTIVE,
+        };
+        e.emit("random", &init, &items, &ctx, &[]);
     }
     // 4. long redirection lists on one command (the stack of saved descriptors)
     let n = args.scale(60, 1500);
@@ -1227,8 +1711,8 @@ fn main() {
                 .collect();
             items.push(Item::Cmd(random_kind(&mut r), r.below(60), redirs));
         }
-        let sf = r.chance(1, 2);
-        e.emit("long-lists", &init, &items, sf, &[]);
+        let ctx = if r.chance(1, 2) { FILE } else { CMD };
+        e.emit("long-lists", &init, &items, &ctx, &[]);
     }
     let discarded = e.discarded;
     e.w.finish(&format!(
